@@ -244,8 +244,9 @@ fn j_lookup(kind: &str, lk: &serde_json::Value, n_axes: usize) -> S {
     let filter = match &lk["mark_filter_set"] {
         serde_json::Value::Null => S::atom("none"),
         v => {
-            // GlyphSet serialises as a sequence of glyph ids
-            let mut ids: Vec<u64> = v.as_array().map(|a| a.iter().filter_map(|x| x.as_u64()).collect()).unwrap_or_default();
+            // GlyphSet serialises as its bit pages: read it back through its Deserialize impl
+            let set: fea_rs::GlyphSet = serde_json::from_value(v.clone()).expect("glyph set");
+            let mut ids: Vec<u64> = set.iter().map(|g| g.to_u16() as u64).collect();
             ids.sort();
             S::list(ids.into_iter().map(|i| S::usize(i as usize)))
         }
